@@ -36,3 +36,9 @@ import LapyVerif.Bridge.CurvTria
 #print axioms LapyVerif.Bridge.curv_tria_umax
 #print axioms LapyVerif.Bridge.curv_tria_c
 #print axioms LapyVerif.Bridge.curv_tria_smooth
+#print axioms LapyVerif.Bridge.census_CurvTria_pcCount
+#print axioms LapyVerif.Bridge.census_FemTria_pcCount
+#print axioms LapyVerif.Bridge.census_FemTriaMass_pcCount
+#print axioms LapyVerif.Bridge.census_FemTriaAniso_pcCount
+#print axioms LapyVerif.Bridge.census_FemTet_pcCount
+#print axioms LapyVerif.Bridge.census_SolverAniso_pcCount
